@@ -17,6 +17,17 @@ def has_rng(fi):
     return False
 
 
+def rng_var(fi):
+    """name under which the function holds its generator: the `rng` parameter or the target of kwargs.pop/get('rng', ...)."""
+    if "rng" in fi.all_params:
+        return "rng"
+    for n in walk_no_nested(fi.node):
+        if isinstance(n, ast.Assign) and isinstance(n.value, ast.Call) and isinstance(n.value.func, ast.Attribute) and norm(n.value.func.value) == "kwargs" \
+                and n.value.func.attr in ("pop", "get") and n.value.args and const_value(n.value.args[0]) == "rng" and isinstance(n.targets[0], ast.Name):
+            return n.targets[0].id
+    return "rng"
+
+
 def run(index, rep, tier):
     rep.rule("R18.1", "RNG threading: GLOBAL_RNG appears only in the default idioms; the `random` module is used only to construct Random(); every call to a function/method that takes an rng passes the caller's own rng")
     rep.rule("R18.2", "no id-ordered iteration feeding the result: simulators do not iterate over / sample from a set of nodes or taxa")
@@ -39,12 +50,13 @@ def run(index, rep, tier):
                 nglob += 1
                 p = pm.get(n)
                 ok = False
-                if isinstance(p, ast.Assign) and norm(p.targets[0]) == "rng":
+                rv = rng_var(f)
+                if isinstance(p, ast.Assign) and norm(p.targets[0]) == rv:
                     g = pm.get(p)
-                    if isinstance(g, ast.If) and norm(g.test) in ("rng is None", "not rng", "rng == None"):
+                    if isinstance(g, ast.If) and norm(g.test) in ("%s is None" % rv, "not %s" % rv, "%s == None" % rv):
                         ok = True
                 if isinstance(p, ast.Call) and isinstance(p.func, ast.Attribute) and norm(p.func.value) == "kwargs" and p.func.attr in ("pop", "get") and const_value(p.args[0]) == "rng":
-                    ok = isinstance(pm.get(p), ast.Assign) and norm(pm.get(p).targets[0]) == "rng"
+                    ok = isinstance(pm.get(p), ast.Assign) and norm(pm.get(p).targets[0]) == rv
                 rep.check(ok, "R18.1", f.qualname, "GLOBAL_RNG outside the default idiom: %s" % norm_stmt(enclosing_stmt(n, pm)), fn_where(f, n), "%s uses GLOBAL_RNG only as the default for its own rng" % f.name,
                           "%s reads GLOBAL_RNG outside the `rng = ... default` idiom (`%s`): the draw bypasses the generator the caller supplied and two runs from equal generator states differ" % (f.qualname, norm_stmt(enclosing_stmt(n, pm))))
         # default parameter value
@@ -94,7 +106,7 @@ def run(index, rep, tier):
                     i = params.index("rng")
                     if i < len(c.args) and not any(isinstance(a, ast.Starred) for a in c.args):
                         v = c.args[i]
-            ok = v is not None and norm(v) in ("rng", "self.rng", "self._rng")
+            ok = v is not None and norm(v) in (rng_var(f), "self.rng", "self._rng")
             if v is None and has_star_kwargs(c):
                 # **kwargs forwards rng only if it is still in kwargs (not popped)
                 popped = any(isinstance(x.func, ast.Attribute) and norm(x.func.value) == "kwargs" and x.func.attr == "pop" and x.args and const_value(x.args[0]) == "rng" for x in calls_in(f.node))
